@@ -577,7 +577,9 @@ class Collection(object):
 
     def _ensure_uniques(self, new_data):
         # Note we consider new_data is already inserted in db
-        for index in self._store.indexes.values():
+        # Iterate over a snapshot: each check scans the collection (taking its lock), and
+        # another thread may create or drop an index in the meantime.
+        for index in list(self._store.indexes.values()):
             if not index.get('unique'):
                 continue
             unique = index.get('key')
